@@ -114,7 +114,10 @@ def run_programs(spec):
                     fname = "<remote exec>"
                     ch = gw.remote_exec(src)
                 else:
-                    modname = f"verif_c06_{spec['shard']}_{i}"
+                    # every other function/module program re-uses the previous module file: same file name, same function
+                    # name and line, new body (the module is rewritten and re-imported) - remote_exec must run the new code
+                    reuse = (i % 6) in (4, 5)
+                    modname = f"verif_c06_{spec['shard']}_{i - 3 if reuse else i}"
                     if form == "function":
                         src, raise_ln = dsl.render_function_module(prog, modname)
                     else:
@@ -123,7 +126,14 @@ def run_programs(spec):
                     with open(fname, "w") as f:
                         f.write(src)
                     importlib.invalidate_caches()
-                    mod = importlib.import_module(modname)
+                    import linecache
+
+                    linecache.checkcache(fname)
+                    if modname in sys.modules:
+                        mod = importlib.reload(sys.modules[modname])
+                        res.count("rewritten_module_programs")
+                    else:
+                        mod = importlib.import_module(modname)
                     if form == "function":
                         ch = gw.remote_exec(mod.remote_entry, **prog["kwargs"])
                     else:
@@ -269,6 +279,26 @@ def channel_second(x, channel):
     channel.send(x)
 
 
+def star_channel(*channel):
+    channel[0].send(1)
+
+
+def kwonly_channel(*, channel):
+    channel.send(1)
+
+
+def starstar_channel(**channel):
+    pass
+
+
+def method_like(self, channel):
+    channel.send(1)
+
+
+def channel_with_default(channel=None, n=2):
+    channel.send(("default", n))
+
+
 def make_closure():
     captured = 41
 
@@ -324,7 +354,8 @@ SHAPES = {
     "nested_defs": ("either", {"n": 3}), "recursion": ("either", {"n": 5}), "local_import": ("ok", {}), "decorated_identity": ("either", {}),
     "uses_constant": ("reject", {}), "uses_module_import": ("reject", {}), "uses_alias": ("reject", {}), "uses_helper": ("reject", {}),
     "uses_shadowed_max": ("reject", {}), "uses_shadowed_len": ("reject", {}), "wrong_first": ("reject", {}), "no_args": ("reject", {}),
-    "star_args": ("reject", {}), "channel_second": ("reject", {"x": 1}), "closure": ("reject", {}), "lam": ("reject", {}),
+    "star_args": ("reject", {}), "channel_second": ("reject", {"x": 1}), "star_channel": ("reject", {}), "kwonly_channel": ("reject", {}),
+    "starstar_channel": ("reject", {}), "method_like": ("reject", {}), "channel_with_default": ("ok", {}), "closure": ("reject", {}), "lam": ("reject", {}),
     "decorated_wrapped": ("reject", {}), "uses_global_statement": ("reject", {}), "nested_uses_global": ("reject", {}),
 }
 
